@@ -8,6 +8,8 @@ Typestate ts = (mods, committed, lost, mods_out):
    committed a transaction opened by this function at its outermost level was committed successfully
    lost      a rollback-kind close discarded modifications
    mods_out  0/1/2 = number (saturating) of modifying statements run outside any transaction of this function
+   outer     None / True / False: what sqlite3_get_autocommit told this function about an enclosing transaction it does not
+             own (BEGIN_NESTTX asks before choosing between SAVEPOINT and BEGIN)
 """
 from .facts import Broken, strip, const
 from .interp import Interp, State, av_const, NONZERO
@@ -56,7 +58,7 @@ class TxInterp(Interp):
         self._seen_ev = set()
 
     def initial_ts(self):
-        return (tuple([False] * self.entry_depth), False, False, 0)
+        return (tuple([False] * self.entry_depth), False, False, 0, None)
 
     def _note(self, kind, node, depth):
         k = (kind, node.get("l"), node["id"])
@@ -65,17 +67,17 @@ class TxInterp(Interp):
             self.events.append((kind, node.get("l"), depth))
 
     def _modify(self, st, n, count=1, what=""):
-        mods, committed, lost, mo = st.ts
+        mods, committed, lost, mo, outer = st.ts
         self.mod_sites.append((n.get("l"), what, len(mods)))
         if mods:
             mods = mods[:-1] + (True,)
         else:
             mo = min(2, mo + count)
-        return st.with_ts((mods, committed, lost, mo))
+        return st.with_ts((mods, committed, lost, mo, outer))
 
     def call(self, st, n, argvals):
         callee = n.get("callee")
-        mods, committed, lost, mo = st.ts
+        mods, committed, lost, mo, outer = st.ts
         ev = tx_event(n)
         lit = tx_literal(n) if ev else None
         if ev == "open":
@@ -84,7 +86,7 @@ class TxInterp(Interp):
                 # SQLite refuses BEGIN while a transaction is open: only the failing outcome exists
                 self.anomalies.append(("begin-inside-transaction", n.get("l"), st))
                 return [(st, NONZERO)]
-            ok = st.with_ts((mods + (False,), committed, lost, mo))
+            ok = st.with_ts((mods + (False,), committed, lost, mo, outer))
             return [(ok, av_const(0)), (st, NONZERO)]
         if ev == "commit":
             self._note("commit", n, len(mods))
@@ -93,13 +95,15 @@ class TxInterp(Interp):
                 return [(st, None)]
             if lit == "commit":
                 # COMMIT ends the whole transaction: every open level, inherited ones included
-                ok = st.with_ts(((), True, lost, mo))
+                if outer:
+                    self.anomalies.append(("full-commit-inside-enclosing-transaction", n.get("l"), st))
+                ok = st.with_ts(((), True, lost, mo, outer))
                 return [(ok, av_const(0)), (st, NONZERO)]
             top = mods[-1]
             rest = mods[:-1]
             if rest and top:
                 rest = rest[:-1] + (True,)
-            ok = st.with_ts((rest, committed or (len(rest) <= self.entry_depth), lost, mo))
+            ok = st.with_ts((rest, committed or (len(rest) <= self.entry_depth), lost, mo, outer))
             return [(ok, av_const(0)), (st, NONZERO)]
         if ev == "rollback":
             self._note("rollback", n, len(mods))
@@ -107,11 +111,17 @@ class TxInterp(Interp):
                 return [(st, None)]     # idempotent close
             if lit == "rollback":
                 # ROLLBACK (without TO) ends the whole transaction: every open level, inherited ones included
-                return [(st.with_ts(((), committed, lost or any(mods), mo)), None)]
-            s = st.with_ts((mods[:-1], committed, lost or mods[-1], mo))
+                if outer:
+                    self.anomalies.append(("full-rollback-inside-enclosing-transaction", n.get("l"), st))
+                return [(st.with_ts(((), committed, lost or any(mods), mo, outer)), None)]
+            s = st.with_ts((mods[:-1], committed, lost or mods[-1], mo, outer))
             return [(s, None)]
-        if callee == "sqlite3_get_autocommit" and mods:
-            return [(st, av_const(0))]      # a transaction is open: not in autocommit mode
+        if callee == "sqlite3_get_autocommit":
+            if mods:
+                return [(st, av_const(0))]      # a transaction is open: not in autocommit mode
+            # nothing of this function's is open: 0 means the caller has a transaction open, which this function does not own
+            return [(st.with_ts((mods, committed, lost, mo, True)), av_const(0)),
+                    (st.with_ts((mods, committed, lost, mo, False)), NONZERO)]
         if callee == "sqlite3_exec":
             t = literal_text(n["args"][1]) if len(n.get("args", [])) > 1 else None
             c = classify(t) if t is not None else "modify"
@@ -131,13 +141,13 @@ class TxInterp(Interp):
         if callee in UNBALANCED:
             entry, exits = UNBALANCED[callee]
             if callee == "cif_loop_get_packets":
-                ok = st.with_ts((mods + (False,), committed, lost, mo))
+                ok = st.with_ts((mods + (False,), committed, lost, mo, outer))
                 return [(ok, av_const(0)), (st, NONZERO)]
             # close / abort
             if not mods:
                 self.anomalies.append(("iterator-close-without-open", n.get("l"), st))
                 return [(st, None)]
-            return [(st.with_ts(((), committed, lost, mo)), None)]     # COMMIT / ROLLBACK: the whole transaction ends
+            return [(st.with_ts(((), committed, lost, mo, outer)), None)]     # COMMIT / ROLLBACK: the whole transaction ends
         if callee in TX_REQUIRED_HELPERS:
             self.helper_calls.append((callee, n.get("l"), len(mods)))
         sm = self.summaries.get(callee)
